@@ -24,6 +24,7 @@ class SymH:
         self.obligations = []
         self.np = symnp
         self.nan = symnp.NaN
+        self.inf = symnp.INF
         self.assumptions = []
         self._content_cache = {}
 
